@@ -53,6 +53,8 @@ def run(spec):
     for k in ("reaction_col", "id_col"):
         if spec.get(k) is not None:
             kw[k] = spec[k]
+    if spec.get("n_jobs") not in (None, 1):
+        kw["n_jobs"] = spec["n_jobs"]
     if spec.get("cache_dir"):
         kw["cache"] = True
         kw["cache_dir"] = spec["cache_dir"]
